@@ -69,6 +69,7 @@ type StructV struct {
 	F      []Value
 	lazy   func(i int) Value
 	Origin *smt.Term // the term this value was read from (nil once modified)
+	Zero   bool      // the zero value of the type (as produced by a composite literal T{} or a fresh variable)
 }
 
 // ArrV is the contents of an array (or of a slice's backing region): a rope.
